@@ -12,6 +12,7 @@
 #include <cstdlib>
 #include <cstring>
 #include <fcntl.h>
+#include <pthread.h>
 #include <sched.h>
 #include <string>
 #include <unistd.h>
@@ -61,6 +62,15 @@ extern "C" void votca_verif_event(int kind, const void *obj, long arg) {
   if (g_annot) {
     if (kind == 3 /*UNLOCK*/ && __tsan_release) __tsan_release(const_cast<void *>(obj));
     if (kind == 2 /*LOCK_ACQ*/ && __tsan_acquire) __tsan_acquire(const_cast<void *>(obj));
+  }
+  if (kind == 2 /*LOCK_ACQ*/) {
+    // after tools::Mutex::Lock() has returned the underlying mutex must be held by somebody: a successful trylock proves
+    // that it is not (event kind 90 in the log; the object is the Mutex, whose only member is the pthread mutex)
+    pthread_mutex_t *m = reinterpret_cast<pthread_mutex_t *>(const_cast<void *>(obj));
+    if (pthread_mutex_trylock(m) == 0) {
+      pthread_mutex_unlock(m);
+      kind = 90;
+    }
   }
   if (g_fd >= 0 && kind >= 5) {  // thread / reader / eval / merge / sync events
     long seq = g_seq.fetch_add(1, std::memory_order_relaxed);
